@@ -99,6 +99,15 @@ def url_keys(prog, rep):
         if isinstance(n, ast.Assign) and isinstance(n.targets[0], ast.Subscript) and isinstance(n.targets[0].slice, ast.Constant) and isinstance(n.targets[0].slice.value, str) and n.targets[0].slice.value.startswith("$"):
             ev = n.targets[0].value.value.id if isinstance(n.targets[0].value, ast.Attribute) and isinstance(n.targets[0].value.value, ast.Name) else "event"
             got[n.targets[0].slice.value] = (deep(n.value, fi, stop=(ev,)), n, ev)
+    # $domain written in both branches of one test (what an expanded helper with two returns leaves): read as a conditional expression
+    for i_ in [x for x in walk_own(fi.node) if isinstance(x, ast.If) and len(x.body) == 1 and len(x.orelse) == 1]:
+        a_, b_ = i_.body[0], i_.orelse[0]
+        if isinstance(a_, ast.Assign) and isinstance(b_, ast.Assign) and norm(a_.targets[0]) == norm(b_.targets[0]) and isinstance(a_.targets[0], ast.Subscript) and isinstance(a_.targets[0].slice, ast.Constant) and a_.targets[0].slice.value == "$domain":
+            ev = a_.targets[0].value.value.id if isinstance(a_.targets[0].value, ast.Attribute) and isinstance(a_.targets[0].value.value, ast.Name) else "event"
+            ie = ast.IfExp(test=i_.test, body=a_.value, orelse=b_.value)
+            ast.copy_location(ie, i_)
+            ast.fix_missing_locations(ie)
+            got["$domain"] = (deep(ie, fi, stop=(ev,)), a_, ev)
     for k, attr in want.items():
         if k not in got:
             rep.violation("URL-KEYS", fi.short, k, f"{k} is never written", fi.loc())
@@ -171,7 +180,28 @@ def category_choice(prog, rep):
         rets = [n for n in walk_own(fi.node) if isinstance(n, ast.Return)]
         loops = [n for n in fi.node.body if isinstance(n, ast.For)]
         ok, why = False, "neither reduce(_pick_deepest_cat, ...) nor a single fold loop"
-        if len(rets) == 1 and isinstance(rets[0].value, ast.Name) and len(loops) == 1 and norm(loops[0].iter) == tp and isinstance(loops[0].target, ast.Name):
+        if len(rets) == 1 and not loops:
+            # max(reversed([['Uncategorized'], *tags]), key=len): max() keeps the FIRST of several maximal elements, so over the
+            # reversed candidates it is the LAST maximal one -- the same element the fold with >= ends on
+            from ..trace import deep as _deep
+
+            v = _deep(rets[0].value, fi)
+            if isinstance(v, ast.Call) and norm(v.func) == "max" and len(v.args) == 1 and len(v.keywords) == 1 and v.keywords[0].arg == "key" and norm(v.keywords[0].value) == "len":
+                arg = v.args[0]
+                rev = isinstance(arg, ast.Call) and norm(arg.func) == "reversed" and len(arg.args) == 1
+                lst = _deep(arg.args[0], fi) if rev else _deep(arg, fi)
+                if isinstance(lst, ast.Call) and norm(lst.func) == "list" and len(lst.args) == 1:
+                    lst = lst.args[0]
+                shape = isinstance(lst, ast.List) and len(lst.elts) == 2 and norm(lst.elts[0]) == "['Uncategorized']" and isinstance(lst.elts[1], ast.Starred) and norm(lst.elts[1].value) == tp
+                if shape and rev:
+                    ok = True
+                elif shape:
+                    why = "max() over the candidates in rule order keeps the FIRST of several equally deep ones: on equal depth the EARLIER rule wins (and 'Uncategorized' beats a one-level category); the property says the later rule wins ties"
+                else:
+                    why = f"max(..., key=len) is not taken over ['Uncategorized'] followed by the matches (`{norm(lst)[:60]}`)"
+            rep.check(ok, "PICK", fi.short, "fold", "last deepest of ['Uncategorized'] + matches", why, fi.loc())
+            rep.ok("PICK", fi.short, "deepest, later wins ties", "decided on the max() form above", fi.loc())
+        elif len(rets) == 1 and isinstance(rets[0].value, ast.Name) and len(loops) == 1 and norm(loops[0].iter) == tp and isinstance(loops[0].target, ast.Name):
             acc, cv = rets[0].value.id, loops[0].target.id
             inits = [n for n in fi.node.body if isinstance(n, (ast.Assign, ast.AnnAssign)) and norm(n.targets[0] if isinstance(n, ast.Assign) else n.target) == acc]
             init_ok = len(inits) == 1 and inits[0].value is not None and norm(inits[0].value) == "['Uncategorized']" and inits[0].lineno < loops[0].lineno
@@ -191,8 +221,9 @@ def category_choice(prog, rep):
                     if want_new.negate() not in sm.lits:
                         ok = False
                         why = f"a category is passed over under {sorted(map(repr, sm.lits))}, not exactly when it is shallower than the current pick"
-        rep.check(ok, "PICK", fi.short, "fold", "left fold over the matches from ['Uncategorized'], deeper-or-equal replaces", why, fi.loc())
-        rep.ok("PICK", fi.short, "deepest, later wins ties", "decided on the loop form above", fi.loc())
+        if loops or len(rets) != 1:
+            rep.check(ok, "PICK", fi.short, "fold", "left fold over the matches from ['Uncategorized'], deeper-or-equal replaces", why, fi.loc())
+            rep.ok("PICK", fi.short, "deepest, later wins ties", "decided on the loop form above", fi.loc())
     else:
         _pick_via_reduce(prog, rep, fi)
     from ..trace import deep
